@@ -9,6 +9,7 @@ package c21
 import (
 	"encoding/binary"
 	"fmt"
+	"os"
 	"sort"
 	"strings"
 	"sync"
@@ -17,6 +18,7 @@ import (
 	"github.com/cockroachdb/pebble/internal/verif/d1x"
 	"github.com/cockroachdb/pebble/internal/verif/vlib"
 	"github.com/cockroachdb/pebble/internal/verif/vsched"
+	"github.com/cockroachdb/pebble/internal/verif/vsync"
 	"github.com/cockroachdb/pebble/vfs"
 	"github.com/cockroachdb/pebble/vfs/errorfs"
 	"github.com/cockroachdb/pebble/wal"
@@ -35,7 +37,7 @@ func rec(seq uint64, key string) []byte {
 }
 
 type step struct {
-	kind string // w (write+sync), n (write no sync), s0/s1 (switch to dir), 
+	kind string // w (write+sync), n (write no sync), s0/s1 (switch to dir),
 	seq  uint64
 }
 
@@ -44,22 +46,29 @@ type scen struct {
 	steps []step
 	errs  bool
 	wsync bool // WAL-sync chunk format
+	// watch: at the very step that acknowledges a synced record (the WaitGroup reaching zero) the
+	// strict crash image is taken on the acknowledging thread: the record must be readable from
+	// what is durable at that moment, not only once Close has finished.
+	watch bool
 }
 
 type h struct {
-	sc       scen
-	mem      *vfs.MemFS
-	fs       vfs.FS
-	injected int
-	fw       *wal.VerifFW
-	wgs      map[uint64]*sync.WaitGroup
-	errs     map[uint64]*error
-	werr     map[uint64]error
-	closeErr error
-	closed   bool
-	stopped  bool
-	swErr    []error
-	qlen     int
+	sc        scen
+	mem       *vfs.MemFS
+	fs        vfs.FS
+	injected  int
+	fw        *wal.VerifFW
+	wgs       map[uint64]*sync.WaitGroup
+	errs      map[uint64]*error
+	werr      map[uint64]error
+	closeErr  error
+	closed    bool
+	stopped   bool
+	swErr     []error
+	qlen      int
+	ackViol   string
+	ackChecks int
+	created   chan struct{}
 }
 
 func (s *h) Setup() {
@@ -98,14 +107,47 @@ func (s *h) Setup() {
 			wg := &sync.WaitGroup{}
 			wg.Add(1)
 			s.wgs[st.seq] = wg
+			if s.sc.watch {
+				vsync.SetOnZero(wg, s.ackOracle(st.seq))
+			}
 			s.errs[st.seq] = new(error)
 		}
 	}
 }
 
+// ackOracle runs on the thread that acknowledges record seq, at the acknowledging step.
+func (s *h) ackOracle(seq uint64) func() {
+	return func() {
+		if *s.errs[seq] != nil || s.ackViol != "" {
+			return
+		}
+		s.ackChecks++
+		us := s.mem.VerifCrashUnits()
+		recs, segs, err := wal.VerifReadBack(s.mem.VerifCrashClone(us, make([]bool, len(us))), 7)
+		if err != nil {
+			s.ackViol = fmt.Sprintf("crash image at the acknowledgement of record %d does not read back: %v (segments %v)", seq, err, segs)
+			return
+		}
+		var got []uint64
+		for _, r := range recs {
+			got = append(got, seqOf(r))
+		}
+		if os.Getenv("VERIF_C21_DEBUG") != "" {
+			fmt.Printf("ORACLE ack of %d: strict crash image reads back %v in %v\n", seq, got, segs)
+		}
+		for _, q := range got {
+			if q == seq {
+				return
+			}
+		}
+		s.ackViol = fmt.Sprintf("record %d was acknowledged as synced, but the strict crash image taken at that moment reads back %v (segments %v)", seq, got, segs)
+	}
+}
+
 func (s *h) Threads() []func() {
 	return []func(){func() {
-		fw, err := wal.VerifNewFailoverWriter(s.fs, 7, s.sc.wsync)
+		s.created = make(chan struct{}, 16)
+		fw, err := wal.VerifNewFailoverWriterCreated(s.fs, 7, s.sc.wsync, s.created)
 		if err != nil {
 			panic(err)
 		}
@@ -128,6 +170,10 @@ func (s *h) Threads() []func() {
 						}
 					}
 				}
+			case "c":
+				// wait until one more physical writer has been created and installed (the writer's own
+				// test hook; a real channel: the scheduler sees this thread durably blocked)
+				<-s.created
 			case "s0":
 				s.swErr = append(s.swErr, fw.Switch(0))
 			case "s1":
@@ -158,6 +204,9 @@ func judge(hh vsched.Harness, x *vsched.Exec) (string, string, string) {
 	s := hh.(*h)
 	if !s.closed || !s.stopped {
 		return "hang", "close-or-stop-did-not-return", fmt.Sprintf("closed=%v stopped=%v", s.closed, s.stopped)
+	}
+	if s.ackViol != "" {
+		return "bad", "acknowledged-before-durable", s.ackViol
 	}
 	written := map[uint64]bool{}
 	var order []uint64
@@ -244,11 +293,16 @@ func judge(hh vsched.Harness, x *vsched.Exec) (string, string, string) {
 	if class != "" {
 		return "bad", class, desc
 	}
-	return fmt.Sprintf("%s acked=%d injected=%d", out, len(acked), s.injected), "", ""
+	return fmt.Sprintf("%s acked=%d injected=%d ack-time crash images checked=%d", out, len(acked), s.injected, s.ackChecks), "", ""
 }
 
 func mk(sc scen, qb, tb int, w float64) d1x.Scenario {
-	return d1x.Scenario{Name: sc.name, QuickBound: qb, ThoroughBound: tb, Weight: w, Judge: judge, MaxSteps: 100000,
+	sc.watch = true // the acknowledgement-time oracle adds no scheduling points
+	env := 0
+	if sc.errs {
+		env = 1 // one injected fault at every position, on top of the preemption bound
+	}
+	return d1x.Scenario{Name: sc.name, QuickBound: qb, ThoroughBound: tb, QuickEnv: env, ThoroughEnv: env, Weight: w, Judge: judge, MaxSteps: 100000,
 		New: func() vsched.Harness { return &h{sc: sc} }}
 }
 
@@ -256,11 +310,11 @@ func TestCheck(t *testing.T) {
 	vlib.Main(t, "C21", func(c *vlib.Ctx) {
 		W := func(q uint64) step { return step{"w", q} }
 		N := func(q uint64) step { return step{"n", q} }
-		S1, S0 := step{kind: "s1"}, step{kind: "s0"}
+		S1, S0, C := step{kind: "s1"}, step{kind: "s0"}, step{kind: "c"}
 		sc := []d1x.Scenario{
 			mk(scen{name: "w-switch-w", steps: []step{W(10), S1, W(11)}}, 0, 1, 3),
-			mk(scen{name: "w-w-switch", steps: []step{W(10), W(11), S1}}, 0, 1, 2),
-			mk(scen{name: "switch-w-w", steps: []step{S1, W(10), W(11)}}, 0, 1, 1),
+			mk(scen{name: "w-w-switch", steps: []step{W(10), W(11), S1}}, -1, 1, 2),                         // thorough only
+			mk(scen{name: "switch-w-w", steps: []step{S1, W(10), W(11)}}, -1, 1, 1),                         // thorough only
 			mk(scen{name: "w-switch-w-switchback-w", steps: []step{W(10), S1, W(11), S0, W(12)}}, -1, 0, 2), // thorough only: two switches, ~60 000 hand-off orders
 			mk(scen{name: "nosync-switch-w", steps: []step{N(10), S1, W(11)}}, 0, 1, 1),
 			mk(scen{name: "w-switch-w-errors", steps: []step{W(10), S1, W(11)}, errs: true}, 0, 1, 3),
@@ -268,6 +322,11 @@ func TestCheck(t *testing.T) {
 			mk(scen{name: "no-switch-2w", steps: []step{W(10), W(11)}}, 2, 3, 1),
 			mk(scen{name: "2w-wait-acks-then-close", steps: []step{W(10), W(11), {kind: "wait"}}}, 2, 3, 2),
 			mk(scen{name: "w-switch-w-wait-acks", steps: []step{W(10), S1, W(11), {kind: "wait"}}}, 0, 1, 2),
+			// each record is handed to exactly one physical writer: the first only to the primary's,
+			// the second only to the secondary's (the user waits for each writer to be installed)
+			mk(scen{name: "created-w-switch-created-w", steps: []step{C, W(10), S1, C, W(11)}}, 0, 1, 3),
+			mk(scen{name: "created-w-switch-created-w-errors", steps: []step{C, W(10), S1, C, W(11)}, errs: true}, 0, 1, 2),
+			mk(scen{name: "created-w-switch-created-w-switchback-w", steps: []step{C, W(10), S1, C, W(11), S0, C, W(12)}}, -1, 0, 2),
 		}
 		d1x.Run(t, c, sc)
 	})
